@@ -236,6 +236,15 @@ func c48(c *Ctx) {
 			}
 		}
 	})
+	c.Ob("error-discipline", "R2", "no error of a translation/construction helper that is tested against nil can lead to an accepted policy, engine or matcher", 8, func() {
+		n := 0
+		for _, fn := range []struct{ pkg, name string }{{authzp, "translatePolicy"}, {authzp, "parseRules"}, {authzp, "parseRequest"}, {authzp, "parseHeaders"}, {xrbac, "newPolicyMatcher"}, {xrbac, "newEngine"}, {xrbac, "NewChainEngine"}, {xrbac, "matchersFromPermissions"}, {xrbac, "matchersFromPrincipals"}, {xrbac, "newHeaderMatcher"}, {xrbac, "newAuthenticatedMatcher"}} {
+			if f := c.P.LookupFunc(fn.pkg, fn.name); f != nil && f.Blocks != nil {
+				n += c.ErrorsPropagate(f, fn.name, nil)
+			}
+		}
+		c.Expect(n >= 8, nil, nil, "error-sites", "fewer tested helper errors than on the reviewed tree")
+	})
 	c.Ob("combinators", "R7", "or: true at first hit else false; and: false at first miss else true; not: negation; always/never constants; policy = permissions AND principals, each an OR over the translated list", 10, func() {
 		mcall := Callee(xrbac, "matcher.match")
 		for _, k := range []struct {
